@@ -154,6 +154,20 @@ def gen_feature_program(rng, feature):
         want = {'r%d' % i: {'g': c['g'] if c['g'] is not None else 'hello', 'k': c['h']['k'] if c['h'] is not None else 1}
                 for i, c in enumerate(calls)}
         return {'yaml': '\n'.join(y) + '\n', 'oracle': {}, 'meta': {'feature': feature, 'want': want}}
+    if feature == 'pausedsub':
+        # tasks that are IDLE when the workflow is resumed (pause-before), whose body is a sub-workflow or an action, next to a
+        # parallel branch; with operator pauses (the running sub-workflow is paused: its parent task becomes PAUSED) and
+        # duplicates of every start request - also the one the resume issued.  Prescribed: each task body starts ONCE.
+        body_wf = [rng.random() < 0.7 for _ in range(2)]
+        y = ["version: '2.0'", 'main:', '  tasks:']
+        for i in range(2):
+            y += ['    p%d:' % i, ('      workflow: sub' if body_wf[i] else '      action: verif.act tag="p%d"' % i)]
+            if i == 0 or rng.random() < 0.5:
+                y.append('      pause-before: true')
+            y += ['      on-success: [z]']
+        y += ['    z:', '      join: all', '      action: verif.act tag="z"',
+              'sub:', '  tasks:', '    s1:', '      action: verif.act tag="s1"', '      on-success: [s2]', '    s2:', '      action: verif.act tag="s2"']
+        return {'yaml': '\n'.join(y) + '\n', 'oracle': {}, 'meta': {'feature': feature, 'body_wf': body_wf}}
     if feature == 'joinsub':
         # a join (all / one / N) whose BODY is a sub-workflow or an action, triggered by 2-4 parallel branches that complete
         # in any order (also after the join has already completed) through on-success / on-error / on-complete routes.
@@ -412,6 +426,16 @@ def run_one(d, prog, seed, inject_pause=False, inject_evict=False, pause_rate=0.
                 if was != a['state'] and not any(f['signature'].startswith('action-state-changed-after-completion') for f in fails):
                     fails.append({'property': 'C03', 'signature': 'action-state-changed-after-completion:%s' % meta['feature'],
                                   'what': 'action execution %s %s -> %s after %s' % (k, was, a['state'], label)})
+        if meta['feature'] == 'pausedsub':
+            # C06: however often its start requests are delivered, a task body (sub-workflow / action) is started once
+            for i in range(2):
+                tk = [k for k in v['tasks'] if k.split('/')[-1].split('#')[0] == 'p%d' % i and k.count('/') == 1]
+                bodies = [k for k in v['wf'] if '/p%d#' % i in k and k.count('/') == 1] if meta['body_wf'][i] else \
+                         [k for k in v['actions'] if k.split('!')[0] in tk]
+                if (len(tk) > 1 or len(bodies) > 1) and not any(f['signature'].startswith('task-body-started-twice') for f in fails):
+                    fails.append({'property': 'C06', 'signature': 'task-body-started-twice:%s' % ('sub-workflow' if meta['body_wf'][i] else 'action'),
+                                  'what': 'task p%d has %d task executions and its body was started %d times after %s: %s' % (
+                                      i, len(tk), len(bodies), label, sorted(bodies))})
         if meta['feature'] == 'joinsub':
             # C04: one task execution of the join, its body started at most once
             jt = [k for k in v['tasks'] if k.split('/')[-1].split('#')[0] == 'j' and k.count('/') == 1]
@@ -492,8 +516,12 @@ def run_one(d, prog, seed, inject_pause=False, inject_evict=False, pause_rate=0.
             n_events[0] += 1
             if after != before and not any(f['signature'].startswith('duplicate-changed-state') for f in fails):
                 diff = sorted(k for k in set(before) | set(after) if before.get(k) != after.get(k))[:4]
+                alld = [k for k in set(before) | set(after) if before.get(k) != after.get(k)]
+                # the known re-pause by a pause-before policy (the policy issues a pause request once more): running
+                # workflows - the root and / or sub-workflows, with their parent tasks and action rows - go from RUNNING to
+                # PAUSED, nothing else changes
                 repaused = (it['payload'].get('method') == 'start_task' and 'pause-before: true' in prog['yaml'] and
-                            all(k.startswith('wf:') and before.get(k, ('',))[0] == 'RUNNING' and after.get(k, ('',))[0] == 'PAUSED' for k in diff))
+                            all((before.get(k) or ('',))[0] == 'RUNNING' and (after.get(k) or ('',))[0] == 'PAUSED' for k in alld))
                 fails.append({'property': 'C06', 'signature': ('duplicate-start-repauses:pause-before' if repaused else
                                                               'duplicate-changed-state:%s:%s' % (it['payload'].get('method'), meta['feature'])),
                               'what': 'a second delivery of %s (%s) changed %s' % (it['payload'].get('method'), o, [(k, before.get(k), after.get(k)) for k in diff])})
